@@ -372,6 +372,26 @@ def witnesses():
         for nm, code, exp in forms:
             body_ = pre % r + "void w() { P p = au::make_quantity_point<U>(R{5}); P p2 = au::make_quantity_point<U>(R{3}); Q q = au::make_quantity<U>(R{2}); (void)p; (void)p2; (void)q; %s }" % code
             items.append(witness.Item("w:%s/%s" % (nm, r), body_, exp, None, dict(desc="%s with rep %s: `%s`" % (nm, r, code))))
+    # direct access trusts the unit label instead of converting: a unit of the same size but another
+    # zero point must be refused for a POINT (it is the same unit for a quantity), through every
+    # access path and slot spelling
+    opre = ("struct U : decltype(au::Kelvins{} * au::mag<3>()) {};\n"
+            "struct V : decltype(au::Kelvins{} * au::mag<3>()) { static constexpr auto origin() { return au::make_quantity<au::Kelvins>(12); } };\n"
+            "struct W : U {};\nusing R = %s; using P = au::QuantityPoint<U, R>; using Q = au::Quantity<U, R>;\n")
+    oforms = [
+        ("data_in_unit", "(void)p.data_in(V{});", "reject"), ("data_in_maker", "(void)p.data_in(au::QuantityPointMaker<V>{});", "reject"),
+        ("data_in_unit_const", "const P &cp = p; (void)cp.data_in(V{});", "reject"), ("data_in_maker_const", "const P &cp = p; (void)cp.data_in(au::QuantityPointMaker<V>{});", "reject"),
+        ("data_in_write", "p.data_in(V{}) = R{1};", "reject"),
+        ("ctl_data_in_own", "(void)p.data_in(U{}); (void)p.data_in(au::QuantityPointMaker<U>{}); const P &cp = p; (void)cp.data_in(U{}); (void)cp.data_in(au::QuantityPointMaker<W>{});", "accept"),
+        ("ctl_quantity_data_in", "(void)q.data_in(V{}); (void)q.data_in(au::QuantityMaker<V>{});", "accept"),
+        ("lib_celsius_in_kelvins", "auto c = au::celsius_pt(R{20}); (void)c.data_in(au::kelvins_pt);", "reject"),
+        ("lib_celsius_in_kelvins_unit", "const auto c = au::celsius_pt(R{20}); (void)c.data_in(au::Kelvins{});", "reject"),
+        ("ctl_lib_celsius", "auto c = au::celsius_pt(R{20}); (void)c.data_in(au::celsius_pt); (void)c.data_in(au::Celsius{});", "accept"),
+    ]
+    for r in ("int", "double"):
+        for nm, code, exp in oforms:
+            body_ = opre % r + "void w() { P p = au::make_quantity_point<U>(R{5}); Q q = au::make_quantity<U>(R{2}); (void)p; (void)q; %s }" % code
+            items.append(witness.Item("w:origin:%s/%s" % (nm, r), body_, exp, None, dict(desc="unit of equal size but another origin, %s with rep %s: `%s`" % (nm, r, code))))
     return items
 
 
